@@ -13,6 +13,8 @@ import (
 
 func getState(p *parser) map[string]any { return p.cur.state }
 
+func stateOfCur(c *current) map[string]any { return c.state }
+
 func mkStateCode(run func(p *parser) error) any { return &stateCodeExpr{run: run} }
 
 // poolTest drives the real state-store bookkeeping (newParser, #{}-style writes, cloneState,
